@@ -56,6 +56,7 @@ pub fn enc_class(srv: &ValveServer) -> String {
             Split::Single => "single",
             Split::Source { with_size: true } => "split-source",
             Split::Source { with_size: false } => "split-source-nosize",
+            Split::SourceCompressed => "split-compressed",
             Split::GoldSrc => "split-goldsrc",
         }
     };
@@ -64,6 +65,8 @@ pub fn enc_class(srv: &ValveServer) -> String {
 
 /// A drawn Valve scenario: entry point, settings, server state and transport.
 pub struct ValveScn {
+    /// compressed forms for players / rules when their transport is the compressed split
+    pub compressed: [Option<vm::Compressed>; 3],
     pub call: Call,
     pub engine: Engine,
     pub gs: GatheringSettings,
@@ -85,6 +88,9 @@ impl ValveScn {
         srv.enc[0] = self.enc[0].clone();
         srv.enc[1] = self.enc[1].clone();
         srv.enc[2] = self.enc[2].clone();
+        for k in 0 .. 3 {
+            srv.compressed[k] = self.compressed[k].clone();
+        }
         srv
     }
 
@@ -144,9 +150,21 @@ pub fn scenario(t: &mut Tape, max_players: u64) -> ValveScn {
         st.protocol = 7;
     }
     let quirk = no_size_quirk(&engine, st.protocol);
-    let enc = [vm::gen_enc(t, goldsrc, !quirk), vm::gen_enc(t, goldsrc, true), vm::gen_enc(t, goldsrc, true)];
+    let mut enc = [vm::gen_enc(t, goldsrc, !quirk), vm::gen_enc(t, goldsrc, true), vm::gen_enc(t, goldsrc, true)];
+    // bzip2-compressed split (Source engine only): the reply comes from the python-built pool
+    let mut compressed: [Option<vm::Compressed>; 3] = [None, None, None];
+    if !goldsrc && !quirk && max_players == 255 {
+        for (k, want_rules) in [(2usize, true), (1usize, false)] {
+            if t.draw(CFG, 12) == 0 {
+                if let Some(c) = st.adopt_pool_entry(t, want_rules) {
+                    compressed[k] = Some(c);
+                    enc[k].split = Split::SourceCompressed;
+                }
+            }
+        }
+    }
     let call = Call { entry, ip: SERVER_IP, port, default_port, timeout };
-    ValveScn { call, engine, gs, st, enc, goldsrc, quirk, via_game_module, ship, port, default_port }
+    ValveScn { compressed, call, engine, gs, st, enc, goldsrc, quirk, via_game_module, ship, port, default_port }
 }
 
 impl Prop for C02 {
@@ -163,7 +181,7 @@ impl Prop for C02 {
 
     fn run_case(&self, _idx: u64, mut t: Tape, detail: bool) -> (CaseOut, Tape) {
         let mut out = CaseOut::default();
-        let ValveScn { call, engine, gs, st, enc, goldsrc, quirk, via_game_module, ship, port, default_port } = scenario(&mut t, 255);
+        let ValveScn { compressed, call, engine, gs, st, enc, goldsrc, quirk, via_game_module, ship, port, default_port } = scenario(&mut t, 255);
         let family = if ship { "valve-ship".to_string() } else { call.entry.family() };
         let expected = if via_game_module {
             expected_game_response(&st, &engine, &gs)
@@ -177,6 +195,9 @@ impl Prop for C02 {
             srv.enc[0] = enc[0].clone();
             srv.enc[1] = enc[1].clone();
             srv.enc[2] = enc[2].clone();
+            for k in 0 .. 3 {
+                srv.compressed[k] = compressed[k].clone();
+            }
             let mut w = World::new(t);
             let sidx = w.add_server(SocketAddr::new(SERVER_IP, port.unwrap_or(default_port)), Proto::Udp, Box::new(srv));
             (w, sidx)
@@ -240,7 +261,12 @@ impl Prop for C02 {
                     let rounds = enc.iter().map(|e| e.challenge_rounds).max().unwrap_or(0);
                     for mut v in first.violations {
                         v.what = format!("{} (the same scenario decodes correctly over single datagrams without challenge)", v.what);
-                        v.signature = format!("{family}|transport:{}{}", transport_of_failure(&encc), if rounds > 0 && !encc.contains("split") { "+challenge" } else { "" });
+                        v.signature = if encc.contains("split-compressed") {
+                            // one code path (SplitPacket::get_payload) whatever the entry point
+                            "valve|transport:split-compressed".to_string()
+                        } else {
+                            format!("{family}|transport:{}{}", transport_of_failure(&encc), if rounds > 0 && !encc.contains("split") { "+challenge" } else { "" })
+                        };
                         out.violate(v);
                     }
                 } else {
@@ -275,7 +301,7 @@ impl Prop for C02 {
         vec![
             "the reference encoder follows the Valve developer wiki 'Server queries' page; it was written from that description, not from the parser".into(),
             "fault-free configuration: constant latency, FIFO delivery, no loss (decode correctness must not be hidden behind fault relaxations)".into(),
-            "bzip2-compressed split replies are not generated (no encoder available offline in Rust); see DESIGN.md".into(),
+            "bzip2-compressed split replies come from a pool built by python3 bz2 (tools/bz2pool.py, committed as gdsim/data/bz2pool.json): no bzip2 encoder is available offline in Rust; the model checks that its own encoding of the pool state is byte-identical to what python compressed".into(),
             "A2S_INFO replies are not split for the protocol-7 / app-240 header quirk (the client cannot know the protocol before the info reply)".into(),
             "extra_data None and Some(all None) are treated as the same information".into(),
         ]
